@@ -29,8 +29,14 @@ RULE = ('every labelled undirected graph on n<=4 nodes (n<=5 thorough) x every k
         'with peel=True (4-tuple) AND through the 2-tuple path (peel=False explicit / argument omitted, alternating); '
         'float, int and bool dtype; n=0; slices with n in 10..30 (independent min-degree-removal coreness oracle); '
         'asymmetric input to kcoreness_centrality_bu with a reciprocal pair (oracle = the symmetrised graph); '
+        'score_wu on DECIMAL weights (0.1, 0.3, 0.7, ...; non-dyadic) with s bit-equal to a binary64 strength met while peeling '
+        '(np.sum of the current sub-matrix, axis 0) and its two float neighbours: direct binary64 oracle only (one-at-a-time '
+        'peeling with exact float comparisons, subset enumeration for n<=6), the Q model is NOT involved in that family; '
         'non-trivial = at least one node is peeled or the core is non-empty with k>0; distinct by hash of (function, matrix, k)')
-ASSUMES = ['weights are small dyadic rationals so every strength sum is exact in binary64 (s within one ulp of a strength is '
+ASSUMES = ['decimal-weight family of score_wu: the oracle decides membership in binary64 exactly as the routine documents it '
+           '(strengths = np.sum(current sub-matrix, axis=0), same shape/dtype/order; keep iff str >= s); weights >= 0 so float '
+           'sums are monotone in the node set and the largest feasible set is unique; these cases are not sent to the Coq model',
+           'weights are small dyadic rationals so every strength sum is exact in binary64 (s within one ulp of a strength is '
            'therefore compared exactly)',
            'directed input WITHOUT a reciprocal pair to kcoreness_centrality_bu (np.any(CIJund > 1) does not fire, in-degrees are '
            'used: C15_kcoreness_bu_single_arc_refuted) is outside the domain of the property (binary UNDIRECTED graphs): '
@@ -235,6 +241,47 @@ def binary(W):
 def is_sym(W):
     n = len(W)
     return all(W[i][j] == W[j][i] for i in range(n) for j in range(n))
+
+
+# ---------------------------------------------------------------- binary64 family for score_wu (no Q model)
+DECW = [0.1, 0.2, 0.3, 0.7, 1.1, 0.05, 2.3, 0.15, 1.9, 0.45]     # non-dyadic weights: strength sums carry rounding noise
+
+
+def fsub(Wf, mask):
+    """the input with the rows and columns outside the node set zeroed (same shape, dtype and memory order as CIJ.copy())"""
+    return np.ascontiguousarray(np.where(np.outer(mask, mask), Wf, 0.0))
+
+
+def fstr(Wf, mask):
+    """strengths inside the node set AS THE ROUTINE DOCUMENTS THEM: np.sum(., axis=0) of the current sub-matrix, binary64"""
+    return np.sum(fsub(Wf, mask), axis=0)
+
+
+def fpeel(Wf, s):
+    """one-node-at-a-time peeling with exact float comparisons str < s; returns (mask of the core, every strength met).
+    Weights are >= 0, float addition is monotone, so the largest feasible set is unique and the order does not matter."""
+    n = len(Wf)
+    mask = np.ones(n, dtype=bool)
+    seen = set()
+    while True:
+        st = fstr(Wf, mask)
+        seen |= {float(x) for x in st[mask] if x > 0}
+        bad = [j for j in range(n) if mask[j] and 0 < st[j] < s]
+        if not bad:
+            return mask & (st > 0), seen
+        mask[min(bad, key=lambda j: (st[j], -j))] = False
+
+
+def fsubset_core(Wf, s):
+    """union of all node sets whose members all have float strength >= s inside the set"""
+    n = len(Wf)
+    U = np.zeros(n, dtype=bool)
+    for m in range(1, 2 ** n):
+        mask = np.array([bool(m >> i & 1) for i in range(n)])
+        st = fstr(Wf, mask)
+        if np.all(st[mask] >= s):
+            U |= mask
+    return U
 
 
 # ---------------------------------------------------------------- the check
@@ -621,6 +668,53 @@ def run(ctx):
             core_both('bd', W, F(k), False, 'malformed', direct=all(W[i][i] == 0 for i in range(n)))
         coreness('bu', W, 'malformed', direct=False)
         coreness('bd', W, 'malformed', direct=False)
+
+    # ---- score_wu on DECIMAL (non-dyadic) weights, decided in binary64: direct oracle only, the Q model is not involved.
+    # s is bit-equal to a float strength met while peeling (np.sum(sub, axis=0)), or one of its two float neighbours.
+    for t in range(ctx.scale(70, 700)):
+        n = int(r.randint(3, 10)) if t % 3 else int(r.randint(3, 7))
+        A, fam = rand_und(r, n)
+        kv = int(r.randint(2, len(DECW) + 1))
+        Wf = np.zeros((n, n))
+        for i in range(n):
+            for j in range(i + 1, n):
+                if A[i][j] != 0:
+                    Wf[i, j] = Wf[j, i] = DECW[int(r.randint(0, kv))]
+        _, seen = fpeel(Wf, float('inf'))
+        vals = sorted(seen)
+        if not vals:
+            continue
+        pick = vals if len(vals) <= 8 else sorted(ctx.rng.sample(vals, 8))
+        grid = sorted({x for v in pick for x in (v, float(np.nextafter(v, np.inf)), float(np.nextafter(v, -np.inf)))})
+        prev = None
+        for s in grid:
+            case = {'fn': 'score_wu', 'arith': 'binary64', 'W_float': [[repr(float(x)) for x in row] for row in Wf],
+                    's_float': repr(s), 's_hex': float(s).hex()}
+            A1 = Wf.copy()
+            try:
+                C, sn = call(bct.score_wu, A1, s)
+            except Timeout:
+                ctx.fail('score_wu:terminates', 'no result within 5 s', case); ctx.case(case, True); continue
+            except Exception as e:
+                ctx.fail('score_wu:raises', 'raised %r' % (e,), case); ctx.case(case, True); continue
+            core, _ = fpeel(Wf, s)
+            if n <= 6:
+                U = fsubset_core(Wf, s)
+                U = U & (fstr(Wf, U) > 0)
+                if not np.array_equal(U, core):
+                    raise RuntimeError('the two binary64 oracles disagree on %r s=%r' % (Wf.tolist(), s))
+            ctx.count('score_wu:family:decimal-binary64'); ctx.count('score_wu:n=%d' % n)
+            ctx.case(case, nontrivial=bool(core.any()) or bool(np.any(Wf)))
+            kept = np.where(np.sum(np.asarray(C), axis=0) > 0)[0].tolist()
+            ctx.check(np.array_equal(A1, Wf), 'score_wu:pure', 'the argument was modified', case)
+            ctx.check(np.array_equal(C, fsub(Wf, core)), 'score_wu:core-binary64',
+                      'output is not the input restricted to the largest node set whose float strengths (np.sum of the '
+                      'sub-matrix, axis 0) are all >= s: oracle core %s, implementation keeps %s; strengths of the whole graph %s'
+                      % (np.where(core)[0].tolist(), kept, [repr(float(x)) for x in np.sum(Wf, axis=0)]), case)
+            ctx.check(int(sn) == int(core.sum()), 'score_wu:size-binary64', 'sn=%d but the core has %d nodes' % (int(sn), int(core.sum())), case)
+            if prev is not None:
+                ctx.check(set(kept) <= prev[1], 'score_wu:nested', 'core for s=%r is not inside the core for s=%r' % (s, prev[0]), case)
+            prev = (s, set(kept))
 
     # ---------------- correspondence: extracted Coq model on the same inputs
     res = run_model(ID, lines)
